@@ -64,3 +64,14 @@ pub async fn recv_handshake(
     let h: handshake::Handshake = stream.recv_proto(ctx, 10 * zksync_protobuf::kB).await?;
     Ok((h.session_id, h.genesis))
 }
+
+/// `consensus::Network::run_outbound_stream` (private to the parent module): dial `addr`,
+/// handshake expecting `peer`, register in the outbound pool, serve, unregister.
+pub(crate) async fn run_outbound_stream(
+    net: &super::Network,
+    ctx: &ctx::Ctx,
+    peer: &validator::PublicKey,
+    addr: std::net::SocketAddr,
+) -> anyhow::Result<()> {
+    net.run_outbound_stream(ctx, peer, addr).await
+}
